@@ -46,7 +46,7 @@ def one(seed):
         res = {}
         for c in cs:
             t0 = time.time()
-            rc, out = sh(f'./check {c} {tier}', vc, e=e)
+            rc, out = sh(f'timeout -k 5 900 ./check {c} {tier}', vc, e=e)  # a change that hangs a check with no watchdog of its own: rc 124, not a dead sweep
             viol = [l for l in out.split('\n') if l.startswith('VIOLATION')]
             kinds = sorted(set(re.findall(r'kind="([^"]+)"', '\n'.join(viol))))
             res[c] = {'exit': rc, 'violations': len(viol), 'kinds': kinds[:6], 'wall_s': round(time.time() - t0, 1)}
